@@ -441,6 +441,15 @@ def sharing_stream(ck):
             observe(ck, "sharing", data, fails, None, origin=f"{nm}, {where}")
             if fails:
                 return fails
+    # the same structure as a map KEY: the decoder builds tuples there and hashes them, every reference again (F14)
+    for d in ((12, 29) if not ck.deep else (12, 24, 29, 33)):
+        x = share_bomb(d)
+        for where, data in (("as a key of the envelope map", bytes([0xD8, 107, 0xA1]) + x + bytes([0x00])),
+                            ("as a key of the wrapped manifest", bytes([0xD8, 107, 0xA2, 0x02]) + auth + bytes([0x03]) + cbor2.dumps(bytes([0xA1]) + x + bytes([0x00]))),
+                            ("as a key inside an array of the whole input", bytes([0x81, 0xA1]) + x + bytes([0x00]))):
+            observe(ck, "sharing", data, fails, None, origin=f"value sharing nested {d} deep, {where}")
+            if fails:
+                return fails
     return fails
 
 
